@@ -242,7 +242,9 @@ func (c *converter) syncPartial() {
 		delete(ingMap, ing.Namespace+"/"+ing.Name)
 	}
 	for _, ing := range c.changed.IngressesAdd {
-		ingMap[ing.Namespace+"/"+ing.Name] = ing
+		// always read from the cache: an added ingress can also be
+		// updated or deleted in the same batch of changes
+		ingMap[ing.Namespace+"/"+ing.Name] = nil
 	}
 	ingList := make([]*networking.Ingress, 0, len(ingMap))
 	for name, ing := range ingMap {
